@@ -23,6 +23,10 @@ DEFUSE = [
     ("match-second-arm-only", ["match self.sel:", '    case "00":', "        pass", '    case "01":', "        t = self.a ^ self.b", "    case _:", "        pass", "self.o1 <<= t"], "reject"),
     ("for-break", ["for bit, val in zip([self.c, self.d], [self.a, self.b]):", "    if bit:", "        t = val + 1", "        break", "self.o1 <<= t"], "reject"),
     ("for-break-else-no-def", ["for bit, val in zip([self.c, self.d], [self.a, self.b]):", "    if bit:", "        t = val + 1", "        break", "else:", "    pass", "self.o1 <<= t"], "reject"),
+    ("sibling-else-use", ["if self.c:", "    t = self.a | self.b", "    self.o2 <<= t", "else:", "    self.o1 <<= t"], "reject"),
+    ("sibling-elif-use", ["if self.c:", "    t = self.a | self.b", "    self.o2 <<= t", "elif self.d:", "    self.o1 <<= t + 1"], "reject"),
+    ("sibling-nested-else-use", ["if self.c:", "    t = self.a | self.b", "    self.o2 <<= t", "else:", "    if self.d:", "        self.o1 <<= t"], "reject"),
+    ("sibling-match-arm-use", ["match self.sel:", '    case "00":', "        t = self.a | self.b", "        self.o2 <<= t", '    case "01":', "        self.o1 <<= t", "    case _:", "        pass"], "reject"),
     ("use-in-defining-branch", ["if self.c:", "    t = self.a | self.b", "    self.o1 <<= t"], "any"),
     ("def-before-branch", ["t = self.a | self.b", "if self.c:", "    self.o1 <<= t", "else:", "    self.o2 <<= t"], "any"),
     ("match-all-define-use-inside", ["match self.sel:", '    case "00":', "        t = self.a | self.b", "        self.o1 <<= t", "    case _:", "        u = self.a & self.b", "        self.o1 <<= u"], "any"),
